@@ -1251,6 +1251,30 @@ def _krylov_norm_defect():
     return _KRY["v"]
 
 
+KRYP_SITE = "krylov._prepare"
+KRYP_SIG = "2-level-identity-raises"
+
+
+def krylov_identity_witness(ctx):
+    """sesolve(krylov) on a 2-level Hamiltonian proportional to the identity
+    must return exp(-i c t)|psi0> like every other method."""
+    import qutip
+    ctx.count_case(("krylov-identity-witness",), nontrivial=True)
+    try:
+        r = qutip.sesolve(3 * qutip.qeye(2), qutip.basis(2, 0), [0, 1.0],
+                          options={"method": "krylov", "store_states": True, "progress_bar": ""})
+        err = abs(r.states[-1].full()[0, 0] - np.exp(-3j))
+        if err > 1e-8:
+            ctx.violation(KRYP_SITE, "2-level-identity-wrong", "krylov on 3*qeye(2): error %.2e" % err,
+                          {"kind": "krylov_identity_witness"}, found_input=True)
+    except ValueError as e:
+        ctx.violation(KRYP_SITE, KRYP_SIG,
+                      "sesolve(3*qeye(2), basis(2,0), [0,1], method='krylov') raises %s" % str(e)[:120],
+                      {"kind": "krylov_identity_witness",
+                       "snippet": "sesolve(3*qeye(2), basis(2,0), [0,1], options={'method':'krylov'})"},
+                      found_input=True)
+
+
 def krylov_norm_witness(ctx):
     """sesolve(method='krylov') is linear in the initial ket: the witness that
     a ket of norm 2 is evolved wrongly by a fresh solver (2-level system)."""
@@ -1488,6 +1512,13 @@ def _guard(ctx, which, key, sysd, fn):
     ctx.count_case(("oracle", which, tuple(key), json.dumps(sys_to_json(sysd), sort_keys=True)),
                    nontrivial=True)
     for sig, what in bad:
+        if (sig == "raises" and which == "sesolve" and key[0] == "krylov" and sysd["N"] == 2
+                and "shape must be a 2-tuple" in what
+                and np.allclose(sysd["H"], sysd["H"][0, 0] * np.eye(2))):
+            ctx.violation(KRYP_SITE, KRYP_SIG, what,
+                          {"kind": "oracle", "which": which, "key": key, "system": sys_to_json(sysd)},
+                          found_input=True)
+            continue
         if sig == FSE_SIG:
             ctx.violation(FSE_SITE, FSE_SIG, what,
                           {"kind": "oracle", "which": which, "key": key, "system": sys_to_json(sysd)},
@@ -1660,6 +1691,7 @@ def run(ctx):
     # ---- O
     run_oracle(ctx, rng, 3 if ctx.quick else 30)
     krylov_norm_witness(ctx)
+    krylov_identity_witness(ctx)
     run_history_oracle(ctx, rng, 1 if ctx.quick else 6)
     ctx.cov["explanation"] = (
         "Proved (all inputs): the RK kernel commutes with linear maps between state spaces "
@@ -1717,6 +1749,8 @@ def replay(ctx, payload):
                               what, d)
     elif kind == "krylov_norm_witness":
         krylov_norm_witness(ctx)
+    elif kind == "krylov_identity_witness":
+        krylov_identity_witness(ctx)
     elif kind == "tableau":
         tableau_search(ctx, d.get("failed_theorems", []), "")
     elif kind == "validation":
